@@ -555,7 +555,28 @@ def rule_tables(prog):
         if not uses:
             continue
         sig_out = c.tstr(fb.get("sig_out", 0) or 0) if "sig_out" in fb else ""
+
+        def _has_la(e_):
+            return any(x.get("k") in ("MethodCall", "Call") and (hir.callee(x) or "") == la_path for x in hir.nodes(e_ or {}))
+
+        def _int_lit(e_):
+            e_ = hir.strip(e_ or {})
+            if e_.get("k") == "BlockExpr" and not e_["b"]["stmts"] and e_["b"].get("expr") is not None:
+                e_ = hir.strip(e_["b"]["expr"])
+            return e_.get("k") == "Lit" and e_["lit"].get("k") == "int"
+
         if sig_out == "bool":
+            # the decision itself (`end + look_ahead() > index`): a choice between the table's value and a number of its own
+            own = []
+            for m_ in hir.nodes(fb["body"], "Match"):
+                if any(_has_la(a_["body"]) for a_ in m_["arms"]):
+                    own += [a_ for a_ in m_["arms"] if _int_lit(a_["body"])]
+            for i_ in hir.nodes(fb["body"], "If"):
+                if (_has_la(i_.get("then")) and _int_lit(i_.get("else"))) or (_has_la(i_.get("else")) and _int_lit(i_.get("then"))):
+                    own.append(i_)
+            out.add(fb["d"], "T2 the look-ahead that is used is the table's value, for every token", not own, c.loc((own[0] if own else fb)["sp"]),
+                    "`%s` decides with the table's look-ahead but uses a number of its own for some tokens: whatever the table says for those "
+                    "tokens (a comment ended by a lone `\\r` grows when `\\n` is typed behind it) is overridden" % fb["d"], ("T2", "lexer"))
             continue
         own = []
         for m_ in hir.nodes(fb["body"], "Match"):
